@@ -110,6 +110,31 @@ func (c *Ctx) Ledger() *ledgerModel {
 		}
 		m.revertOnly[fn] = all
 	}
+	// covered: the function journals itself, is the undo path (stateChange.revert methods restore values
+	// without journaling them), or is called only from covered functions of the ledger
+	covered := map[*ssa.Function]bool{}
+	for _, fn := range lfuncs {
+		if m.appends[fn] || fn.Name() == "revert" {
+			covered[fn] = true
+		}
+	}
+	for changed := true; changed; {
+		changed = false
+		for _, fn := range lfuncs {
+			if covered[fn] || len(callers[fn]) == 0 {
+				continue
+			}
+			all := true
+			for _, cl := range callers[fn] {
+				if !covered[cl] {
+					all = false
+				}
+			}
+			if all {
+				covered[fn], changed = true, true
+			}
+		}
+	}
 	for fn := range m.dirtyWriters {
 		if m.appends[fn] || m.revertOnly[fn] {
 			continue
@@ -121,18 +146,10 @@ func (c *Ctx) Ledger() *ledgerModel {
 		if fn.Signature.Recv() == nil {
 			continue
 		}
-		// journaling done by every caller (e.g. SetSuicided, called by Suicide which appends suicideChange)
-		if cs := callers[fn]; len(cs) > 0 {
-			all := true
-			for _, cl := range cs {
-				// the undo path itself (stateChange.revert methods) restores values without journaling them
-				if !m.appends[cl] && cl.Name() != "revert" {
-					all = false
-				}
-			}
-			if all {
-				continue
-			}
+		// journaling done by every caller (e.g. SetSuicided, called by Suicide which appends suicideChange),
+		// transitively: a helper of helpers (ensureDirtyAccount <- setNonce <- SetNonce / nonceChange.revert)
+		if covered[fn] {
+			continue
 		}
 		m.nj[fn] = true
 	}
